@@ -139,6 +139,10 @@ def drop(ds, names):
     return clause("drop", ds, [comp(n) for n in names])
 
 
+def unpivot(ds, new_id, new_measure):
+    return clause("unpivot", ds, [comp_id(new_id), comp_id(new_measure)])
+
+
 def rename(ds, pairs):
     return clause("rename", ds, [A.RenameNode(old_name=o, new_name=n, **P) for o, n in pairs])
 
